@@ -207,6 +207,9 @@ def encode_movie(m, rng=None, info=None):
         want = tuple(m["last"]) if isinstance(m["last"], list) else m["last"]
         pos = next(p for p, it in enumerate(items) if it[0] == want)
         items.append(items.pop(pos))
+        # (a singleton type is found as the FIRST resource of its type: unlisted chunks of the same type would now come first)
+        if items[-1][1] in (b"KEY*", b"CAS*", b"VWCF", b"Fmap", b"VWLB", b"VWSC", b"Lnam", b"Lctx"):
+            items = [("decoy", b"XTRA", it[2]) if (it[0] == "decoy" and it[1] == items[-1][1]) else it for it in items]
         mmap_at = rng.randrange(1, len(items) + 1)
     order_items = [("imap", b"imap", b"")] + items[:mmap_at - 1] + [("mmap", b"mmap", b"")] + items[mmap_at - 1:]
     ridx = {it[0]: k + 1 for k, it in enumerate(order_items) if it[0] != "decoy"}
